@@ -229,7 +229,20 @@ def run_pairs(requests, cfg=None, jobs=None):
     chunks = [requests[i:i + size] for i in range(0, len(requests), size)]
     with concurrent.futures.ThreadPoolExecutor(len(chunks)) as ex:
         res = list(ex.map(lambda c: run_pair_chunk(c, cfg), chunks))
-    return [x for r in res for x in r]
+    out = [x for r in res for x in r]
+    # the worker abandons a request after 5 s; on a loaded machine that can hit a harmless request: ask again, alone, before it counts
+    hung = [i for i, (_, a, _) in enumerate(out) if a == "HANG"][:50]
+    if hung:
+        again = _reask([out[i][0] for i in hung], cfg)
+        for i, a in zip(hung, again):
+            out[i] = (out[i][0], a, out[i][2])
+    return out
+
+
+def _reask(requests, cfg):
+    wcmd = [PY, WORKER] + (["--cfg", str(cfg)] if cfg is not None else [])
+    env = dict(os.environ, MSQ_REPO=REPO, PYTHONHASHSEED=os.environ.get("PYTHONHASHSEED", "0"))
+    return [(_run_side(wcmd, r + "\n", env)[0] + ["HANG"])[0] or "HANG" for r in requests]
 
 
 def run_impl(requests, cfg=None, jobs=None):
@@ -245,7 +258,12 @@ def run_impl(requests, cfg=None, jobs=None):
     env = dict(os.environ, MSQ_REPO=REPO, PYTHONHASHSEED=os.environ.get("PYTHONHASHSEED", "0"))
     with concurrent.futures.ThreadPoolExecutor(len(chunks)) as ex:
         res = list(ex.map(lambda c: _run_side(wcmd, "\n".join(c) + "\n", env)[0][:len(c)], chunks))
-    return [x for r in res for x in r]
+    out = [x for r in res for x in r]
+    hung = [i for i, a in enumerate(out) if a == "HANG"][:50]
+    if hung and len(out) == len(requests) and not any(r.startswith(("TIME ", "THR ")) for r in requests):
+        for i, a in zip(hung, _reask([requests[i] for i in hung], cfg)):
+            out[i] = a
+    return out
 
 
 def run_model(requests):
